@@ -126,8 +126,9 @@ def run(chk, replay=None):
         als = ["none", "axis", "dpd1"] + (["dpd2", "dpd3"] if tier == "thorough" else [["dpd2"], ["dpd3"]][chk.seed % 2])
         if spec[0] == "synth" and tier == "quick" and spec[1] is not photon:
             als = [a for a in als if a != "axis"]  # the axis-angle model of a synthetic reaction does not fit the quick budget
+        als = als + ["relabel"]  # relabel_edge_ids alone (the prerequisite of DPD): the same model on shifted ids
         for al in als:
-            jobs.append((spec, al, ev, [], chk.seed, al != "none"))
+            jobs.append((spec, al, ev, [], chk.seed, al not in ("none", "relabel")))
             nj.append((spec, al))
             meta.append((str(spec[:3]) if spec[0] == "real" else "synth-numeric", spec, al))
     results = observe.run_jobs(jobs, workers=12, job_timeout=600 if tier == "thorough" else 50)
@@ -144,9 +145,9 @@ def run(chk, replay=None):
             timeouts.append(rid)
             continue
         chk.count(1)
-        if al != "none":
+        if al not in ("none", "relabel"):
             records.append({"kind": "built", "id": rid, "ntop": ntop, "ok": res["ok"], "alignment": al, "error": res["error"][:120]})
-        if res["ok"] == 1 and res.get("pools") is not None and al != "none":
+        if res["ok"] == 1 and res.get("pools") is not None and al not in ("none", "relabel"):
             records.append({"kind": "pools", "id": rid, "outer": outer, "pools": res["pools"]})
             chk.nontrivial((al, tuple((o["spin2"], o["massless"]) for o in outer)))
         if job[2] is not None and res["ok"] == 1:
@@ -158,7 +159,7 @@ def run(chk, replay=None):
             if al == "none":
                 continue
             q, nan = observe.reldiff_q(I, d["none"][0])
-            records.append({"kind": "equal", "id": rid, "outer": outer, "ntop": ntop, "alignment": al, "reldiff_q": q, "nan": nan})
+            records.append({"kind": "relabel" if al == "relabel" else "equal", "id": rid, "outer": outer, "ntop": ntop, "alignment": al, "reldiff_q": q, "nan": nan})
     tv = trace.validate("Trace_Observe", records, timeout=1200)
     chk.add_tlc("trace_observe", tv.res, traces=len(records))
     if timeouts:
